@@ -11,6 +11,7 @@ import (
 	"pgregory.net/rapid"
 
 	"verif/ev"
+	"verif/fault"
 	"verif/gen"
 	"verif/ref"
 )
@@ -22,6 +23,9 @@ type caseC12 struct {
 	Lead   int       `json:"lead"`  // zero bytes before the first stream
 	Trail  []byte    `json:"trail"` // bytes after the last padding; first byte non-zero
 	Single bool      `json:"single"`
+	// Frag: how the source hands out the file (short reads, final bytes
+	// delivered together with io.EOF); zero value = all at once
+	Frag fault.Frag `json:"frag"`
 }
 
 func drawC12(t *rapid.T) caseC12 {
@@ -47,6 +51,21 @@ func drawC12(t *rapid.T) caseC12 {
 		c.Trail = append([]byte{byte(rapid.IntRange(1, 255).Draw(t, "t0"))}, rapid.SliceOfN(rapid.Byte(), 0, 13).Draw(t, "trailrest")...)
 	}
 	c.Single = rapid.IntRange(0, 3).Draw(t, "single") == 0
+	c.Frag.Kind = rapid.SampledFrom([]string{"whole", "whole", "one", "lens"}).Draw(t, "frag")
+	if c.Frag.Kind == "lens" {
+		c.Frag.Lens = rapid.SliceOfN(rapid.SampledFrom([]int{1, 2, 3, 4, 5, 11, 12, 13, 100, 4096}), 1, 5).Draw(t, "fraglens")
+	}
+	c.Frag.EOFWith = rapid.Bool().Draw(t, "eofwith")
+	// SingleStream with exactly one byte after the stream (a zero or not):
+	// the smallest thing that must be reported
+	if c.Single && rapid.Bool().Draw(t, "onebyte") {
+		c.Srcs, c.Pads, c.Lead = c.Srcs[:1], []int{0}, 0
+		if rapid.Bool().Draw(t, "onezero") {
+			c.Pads[0], c.Trail = 1, nil
+		} else {
+			c.Trail = []byte{byte(rapid.IntRange(1, 255).Draw(t, "onet"))}
+		}
+	}
 	return c
 }
 
@@ -101,7 +120,10 @@ func checkC12(c caseC12, rec *ev.Rec) *ev.Failure {
 		}
 	}
 
-	r, err := xz.ReaderConfig{DictCap: 4096, SingleStream: c.Single}.NewReader(bytes.NewReader(file))
+	if c.Frag.Kind == "" {
+		c.Frag.Kind = "whole"
+	}
+	r, err := xz.ReaderConfig{DictCap: 4096, SingleStream: c.Single}.NewReader(fault.NewFragReader(file, c.Frag))
 	var got []byte
 	if err == nil {
 		got, err = io.ReadAll(r)
@@ -149,7 +171,10 @@ func checkC12(c caseC12, rec *ev.Rec) *ev.Failure {
 			rec.Class("valid_trailing_padding")
 		}
 	}
-	rec.Class(fmt.Sprintf("streams=%d", len(c.Srcs)), fmt.Sprintf("single=%v", c.Single), fmt.Sprintf("want_err=%v", wantErr))
+	rec.Class(fmt.Sprintf("streams=%d", len(c.Srcs)), fmt.Sprintf("single=%v", c.Single), fmt.Sprintf("want_err=%v", wantErr), "source="+c.Frag.Kind, fmt.Sprintf("eof_with_data=%v", c.Frag.EOFWith))
+	if c.Single && len(file) == firstEnd+1 {
+		rec.Class("single_stream_one_byte_follows")
+	}
 	if c.Lead > 0 {
 		rec.Class("leading_padding")
 	}
